@@ -63,6 +63,13 @@ def angle_groups(toks):
 
 # legal (or at least parseable) but unusual spellings: every one must expand without a panic, as is and mutated
 EXTRA_SEEDS = [
+    # a bare trait object with several bounds as the (unsized) field: `&dyn A + B` in the output would be ambiguous
+    ('A', 'Deref, DerefMut', 'struct X(dyn ::core::fmt::Debug + Sync);'),
+    # the recorded finding (known_findings.json): a bare trait object written with a trailing `+`
+    ('A', 'Clone, Mul', 'struct X { c: dyn ::core::fmt::Debug + }'),
+    ('A', 'Neg, Add, SubAssign', 'struct X(dyn ::core::fmt::Debug + Sync);'),
+    ('D', '', '#[derive_ex(Deref, Not, Mul, ShlAssign)] struct X<T> { a: dyn AsRef<T> + Send + \'static }'),
+    ('A', 'Clone, Debug, PartialEq, Hash, PartialOrd', "struct X<'a>(u8, dyn ::core::fmt::Debug + 'a + Sync);"),
     ('A', 'Add', 'impl Add<> for X { type Output = X; fn add(self, r: X) -> X { self } }'),
     ('A', 'AddAssign', 'impl AddAssign<> for X { fn add_assign(&mut self, r: X) {} }'),
     ('A', 'Add', 'impl ::core::ops::Add<X,> for X { type Output = X; fn add(self, r: X) -> X { self } }'),
